@@ -214,7 +214,26 @@ impl Area for Arg {
         // encoded length (for truncation / corruption points)
         let len: usize = vals.iter().map(|v| 4 + bytes(v).len() + if matches!(v, V::S(_) | V::A(_) | V::R(_)) { 2 } else { 0 }).sum();
         let trunc = if rng.chance(3) && len > 0 { rng.below(len as u64).to_string() } else { "-".to_string() };
-        let corrupt = if trunc == "-" && rng.chance(4) && len > 0 && len < 1000 { format!("{}:{}", rng.below(len as u64), rng.below(256)) } else { "-".to_string() };
+        let elen = |v: &V| 4 + bytes(v).len() + if matches!(v, V::S(_) | V::A(_) | V::R(_)) { 2 } else { 0 };
+        let corrupt = if trunc == "-" && rng.chance(4) && len > 0 && len < 1000 {
+            if rng.chance(2) {
+                // single-field corruption of a type info: one bit flipped, or another length code
+                let j = rng.below(n as u64) as usize;
+                let off: usize = vals[..j].iter().map(elen).sum();
+                let t = ti(&vals[j]);
+                let bits = if rng.chance(4) { 32 } else { 16 };
+                let t2 = if rng.chance(3) { (t & !0xf) | rng.below(16) as u32 } else { t ^ (1u32 << rng.below(bits)) };
+                let (o, n2) = if be { (t.to_be_bytes(), t2.to_be_bytes()) } else { (t.to_le_bytes(), t2.to_le_bytes()) };
+                match (0..4).find(|k| o[*k] != n2[*k]) {
+                    Some(k) => format!("{}:{}", off + k, n2[k]),
+                    None => format!("{}:{}", rng.below(len as u64), rng.below(256)),
+                }
+            } else {
+                format!("{}:{}", rng.below(len as u64), rng.below(256))
+            }
+        } else {
+            "-".to_string()
+        };
         format!("{} {} {} {} | {}", be as u8, if serde_enc { "s" } else { "p" }, trunc, corrupt, vals.iter().map(|v| fmt_val(v, be)).collect::<Vec<_>>().join(";"))
     }
     fn run(&self, case: &str) -> String {
